@@ -244,9 +244,20 @@ impl Prop for C15Prop {
             Sub { name: "f64-number", kind: SubKind::Random { cases: tier.pick(300_000, 15_000_000), len: 160 } },
             Sub { name: "complex-f64", kind: SubKind::Enum { count: real_cases().len() as u64 } },
             Sub { name: "decimal-f64", kind: SubKind::Random { cases: tier.pick(100_000, 3_000_000), len: 80 } },
+            Sub { name: "after-failures", kind: SubKind::Enum { count: ((failing_templates(Ev::Num).len() + failing_templates(Ev::I64).len()) * probe_expressions(Ev::I64).len()) as u64 } },
         ]
     }
-    fn gen_enum(&self, _sub: &str, idx: u64, _tier: Tier) -> Option<Case> {
+    fn gen_enum(&self, sub: &str, idx: u64, _tier: Tier) -> Option<Case> {
+        if sub == "after-failures" {
+            // agreement must survive a long run of failing calls in either evaluator on the same thread
+            let ps = probe_expressions(Ev::I64);
+            let (tn, ti) = (failing_templates(Ev::Num), failing_templates(Ev::I64));
+            let k = idx as usize / ps.len();
+            let (which, t) = if k < tn.len() { ("number", tn[k].clone()) } else { ("i64", ti.get(k - tn.len())?.clone()) };
+            let mut case = Case::new(Ev::I64, ps[idx as usize % ps.len()].to_string(), Val::I(5));
+            case.aux = vec![which.to_string(), t];
+            return Some(case);
+        }
         Some(Case::new(Ev::Cpx, real_cases().get(idx as usize)?.clone(), Val::C(0.0, 0.0)))
     }
     fn gen(&self, sub: &str, c: &mut dyn Choices) -> Option<Case> {
@@ -281,6 +292,16 @@ impl Prop for C15Prop {
         Some(Case::new(ev, s, ph))
     }
     fn check(&self, sub: &str, case: &Case, sc: &mut ShardCtx) -> Result<(), Failure> {
+        if sub == "after-failures" {
+            if let (Some(which), Some(t)) = (case.aux.first(), case.aux.get(1)) {
+                if which == "number" {
+                    exhaust(sc, Ev::Num, t, &Val::NI(5));
+                } else {
+                    exhaust(sc, Ev::I64, t, &Val::I(5));
+                }
+            }
+            return self.check("i64-number", case, sc);
+        }
         match sub {
             "i64-number" => {
                 let e = match accept(Ev::I64, &case.input) {
